@@ -289,7 +289,7 @@ struct Gen {
 				o.a    = alive_slot(D);
 				o.file = rng.below(NFILE);
 				o.arch = rng.below(3);
-				o.var  = rng.below(4);  // 0 array, 1 view, 2 array re-indexed to base 1, 3 read-only view
+				o.var  = D == 0 ? 0 : rng.below(4);  // 0 array, 1 view, 2 array re-indexed to base 1, 3 read-only view
 				break;
 			}
 			case 13: {  // MPI
@@ -527,7 +527,7 @@ struct Gen {
 					MView v;
 					bool  found = false;
 					for(int t = 0; t < 4 && !found; ++t) {
-						o.da = rdim();
+						o.da = rng.range(std::max(1, T.dmin), T.dmax);
 						o.a  = alive_slot(o.da);
 						if(o.a < 0) continue;
 						found = fit_view(o.da, o.a, like, o.ca, v) || find_view(o.da, o.a, f.D, &like, false, o.ca, v, 6);
